@@ -34,7 +34,7 @@ environment-dependent; ignore those if they also fail without your change).
 Requirements for the change:
 1. It must look like something a maintainer could plausibly write (a refactor, an optimisation, a "simplification", a
    bug fix gone slightly wrong) — not sabotage, no dead code, no special-casing of magic values.
-2. It must compile (`go build ./...`) and the existing tests must still pass with it (run the suite, twice if something looks flaky).
+2. It must compile (`go build ./...`) and the existing tests must still pass with it, UNEDITED (do not edit, delete or add to any existing *_test.go file, testdata or reference file; run the suite, twice if something looks flaky).
 3. It must make the property FALSE for some realistic situation, and that situation must need something specific to
    manifest. {theme}
    Ordinary use / the first RA / a trivial configuration must NOT expose it at once.
